@@ -178,9 +178,16 @@ class State:
     def cls_is(self, ref, clsname):
         """dynamic class of ref is clsname or a (declared) subclass"""
         kd = REG.get(clsname)
-        ids = [REG.get(n).cid for n in REG.subclass_names(clsname) if not REG.get(n).abstract]
+        subs = REG.subclass_names(clsname)
+        ids = [REG.get(n).cid for n in subs if not REG.get(n).abstract]
         if kd.cid not in ids and not kd.abstract:
             ids.append(kd.cid)
+        # open world: an abstract class with a repo definition may have user subclasses the registry does not know.
+        # They are represented by the negated id of the abstract class (only the base contracts hold for them).
+        for n in set(subs) | {clsname}:
+            k2 = REG.get(n)
+            if k2.abstract and k2.qualname and not k2.qualname.endswith("Proto"):
+                ids.append(-k2.cid)
         if not ids:
             ids = [kd.cid]
         c = z3.Select(self.cls_arr(), ref)
